@@ -189,7 +189,7 @@ PROFILES = [
 ]
 
 
-def make_tree(root, nlong=420):
+def make_tree(root, nlong=640):
     """host tree copied by `mke2fs -d`"""
     import random
     rnd = random.Random(7)
@@ -331,7 +331,284 @@ def build_fresh(bdir, env, work):
             notes.append("shared xattr block made")
         else:
             notes.append("NO shared xattr block")
+        if "quota" in name:
+            rc2, o, e = sh([e2fsck, "-fy", img], env)      # i_blocks of s20 changed: let e2fsck redo the usage
+            notes.append("e2fsck -fy (quota usage) rc=%d" % rc2)
         out.append((name, img, notes))
+    return out
+
+
+# ------------------------------------------------------------------------------------------------
+# a few checksum-correct mutations of the fresh images (both verdicts must flip together)
+# ------------------------------------------------------------------------------------------------
+class Patcher:
+    """edits a copy of an image; checksums are recomputed with the reader's own crc32c / crc16"""
+
+    def __init__(self, img):
+        import struct
+        self.st = struct
+        self.R = ext4read.Reader(img)
+        self.P = self.R.project()
+        self.b = bytearray(self.R.img)
+        self.paths = {t["path"]: t["ino"] for t in self.P["tree"]}
+
+    def ino(self, path):
+        return self.paths[path]
+
+    def raw_inode(self, ino):
+        off = self.R.inode_off(ino)
+        return off, bytearray(self.b[off:off + self.R.isize])
+
+    def put_inode(self, ino, raw):
+        R, st = self.R, self.st
+        off = R.inode_off(ino)
+        if R.meta_csum:
+            st.pack_into("<H", raw, 124, 0)
+            hi = R.isize > 128 and st.unpack_from("<H", raw, 128)[0] >= 4
+            if hi:
+                st.pack_into("<H", raw, 130, 0)
+            c = ext4read.crc32c(R.seed, st.pack("<I", ino))
+            c = ext4read.crc32c(c, bytes(raw[100:104]))
+            c = ext4read.crc32c(c, bytes(raw))
+            st.pack_into("<H", raw, 124, c & 0xFFFF)
+            if hi:
+                st.pack_into("<H", raw, 130, c >> 16)
+        self.b[off:off + R.isize] = raw
+
+    def iseed(self, ino):
+        R, st = self.R, self.st
+        off, raw = self.raw_inode(ino)
+        c = ext4read.crc32c(R.seed, st.pack("<I", ino))
+        return ext4read.crc32c(c, bytes(raw[100:104]))
+
+    def fix_gd(self, g):
+        R, st = self.R, self.st
+        if R.csum_kind == "none":
+            return
+        off = R.loc["gd%d" % g]
+        raw = bytes(self.b[off:off + R.dsize])
+        st.pack_into("<H", self.b, off + 0x1E, R.gd_csum(g, raw))
+
+    def fix_bitmap(self, g, which):
+        R, st = self.R, self.st
+        if R.meta_csum:
+            d = R.gd[g]
+            blk = d["bb" if which == "b" else "ib"]
+            n = (R.cpg if which == "b" else R.ipg) // 8
+            c = ext4read.crc32c(R.seed, bytes(self.b[blk * R.bs:blk * R.bs + n]))
+            off = R.loc["gd%d" % g]
+            st.pack_into("<H", self.b, off + (0x18 if which == "b" else 0x1A), c & 0xFFFF)
+            if R.dsize >= 64:
+                st.pack_into("<H", self.b, off + (0x38 if which == "b" else 0x3A), c >> 16)
+        self.fix_gd(g)
+
+    def flip_block_bit(self, blk):
+        R = self.R
+        c = (blk - R.first) // R.cr
+        g, bit = divmod(c, R.cpg)
+        if R.gd[g]["flagbits"] & 2 and R.csum_kind != "none":
+            return False
+        o = R.gd[g]["bb"] * R.bs + bit // 8
+        self.b[o] ^= 1 << (bit % 8)
+        self.fix_bitmap(g, "b")
+        return True
+
+    def flip_inode_bit(self, ino):
+        R = self.R
+        g, bit = divmod(ino - 1, R.ipg)
+        o = R.gd[g]["ib"] * R.bs + bit // 8
+        self.b[o] ^= 1 << (bit % 8)
+        self.fix_bitmap(g, "i")
+
+    def fix_dirblock(self, dirino, pblk):
+        R, st = self.R, self.st
+        if not R.meta_csum:
+            return
+        o = pblk * R.bs
+        c = ext4read.crc32c(self.iseed(dirino), bytes(self.b[o:o + R.bs - 12]))
+        st.pack_into("<I", self.b, o + R.bs - 4, c)
+
+    def inode_rec(self, ino):
+        for i in self.P["inodes"]:
+            if i["ino"] == ino:
+                return i
+
+    def save(self, path):
+        with open(path, "wb") as f:
+            f.write(self.b)
+
+
+def mutations(img, outdir, tag):
+    """-> list of (name, path, expectation note)"""
+    import struct
+    out = []
+
+    def emit(name, pt):
+        p = os.path.join(outdir, "%s__%s.img" % (tag, name))
+        pt.save(p)
+        out.append(("%s/%s" % (tag, name), p))
+
+    def fresh():
+        return Patcher(img)
+    base = fresh()
+    R = base.R
+    try:
+        big = base.inode_rec(base.ino("/big400k"))
+        frag = base.inode_rec(base.ino("/frag"))
+        s02 = base.ino("/d1/s02")
+        d2 = base.ino("/d1/d2")
+    except KeyError:
+        return out
+    # 1 clear the bitmap bit of an owned block
+    pt = fresh()
+    if pt.flip_block_bit(big["own"]["data"][0][0]):
+        emit("bb_clear_owned", pt)
+    # 2 set the bit of a free block (last cluster of the bitmap that is clear)
+    pt = fresh()
+    used = set()
+    for a, b in base.P["bbitmap"]:
+        used.update(range(a, b + 1))
+    free = [c for c in range(base.P["geo"]["ncl"]) if c not in used]
+    if free and pt.flip_block_bit(R.first + free[len(free) // 2] * R.cr):
+        emit("bb_set_free", pt)
+    # 3 clear the inode bitmap bit of a live inode
+    pt = fresh()
+    pt.flip_inode_bit(s02)
+    emit("ib_clear_live", pt)
+    # 4 links_count + 1
+    pt = fresh()
+    off, raw = pt.raw_inode(s02)
+    struct.pack_into("<H", raw, 26, struct.unpack_from("<H", raw, 26)[0] + 1)
+    pt.put_inode(s02, raw)
+    emit("links_plus1", pt)
+    # 5 group free blocks + 1
+    pt = fresh()
+    o = R.loc["gd0"]
+    struct.pack_into("<H", pt.b, o + 12, struct.unpack_from("<H", pt.b, o + 12)[0] + 1)
+    pt.fix_gd(0)
+    emit("gd_free_blocks_plus1", pt)
+    # 6 group descriptor checksum alone (metadata csum / uninit_bg only)
+    if R.csum_kind != "none":
+        pt = fresh()
+        o = R.loc["gd0"] + 0x1E
+        pt.b[o] ^= 0x55
+        emit("gd_csum_only", pt)
+    # 7 i_blocks + 2
+    pt = fresh()
+    off, raw = pt.raw_inode(big["ino"])
+    struct.pack_into("<I", raw, 28, struct.unpack_from("<I", raw, 28)[0] + 2)
+    pt.put_inode(big["ino"], raw)
+    emit("iblocks_plus2", pt)
+    # 8 directory i_size + one block
+    pt = fresh()
+    off, raw = pt.raw_inode(d2)
+    if not (struct.unpack_from("<I", raw, 32)[0] & 0x10000000):
+        struct.pack_into("<I", raw, 4, struct.unpack_from("<I", raw, 4)[0] + R.bs)
+        pt.put_inode(d2, raw)
+        emit("dir_size_plus_block", pt)
+    # 9 stale inode checksum (a byte of mtime changes, checksum does not)
+    if R.meta_csum:
+        pt = fresh()
+        off, raw = pt.raw_inode(s02)
+        pt.b[off + 16] ^= 1
+        emit("inode_csum_stale", pt)
+    # 10 a directory entry names a free inode / '..' names the wrong directory
+    d2rec = [d for d in base.P["dirs"] if d["dir"] == d2][0]
+    if d2rec["kind"] in ("linear", "htree"):
+        key = "%d:0" % d2
+        o = R.loc["dirblk"][key]
+        freeino = base.P["geo"]["inodes"] - 3
+        # walk the first block: entries are (ino, rec_len, name_len, ft, name)
+        pos = 0
+        ents = []
+        while pos < R.bs:
+            ino_, rl, nl, ft = struct.unpack_from("<IHBB", pt.b, o + pos)
+            if rl < 8:
+                break
+            ents.append((pos, ino_, bytes(pt.b[o + pos + 8:o + pos + 8 + nl])))
+            pos += rl
+        for pos, ino_, nm in ents:
+            if nm not in (b".", b"..") and ino_:
+                pt = fresh()
+                struct.pack_into("<I", pt.b, o + pos, freeino)
+                pt.fix_dirblock(d2, o // R.bs)
+                emit("dirent_to_free_inode", pt)
+                break
+        for pos, ino_, nm in ents:
+            if nm == b"..":
+                pt = fresh()
+                struct.pack_into("<I", pt.b, o + pos, d2)
+                pt.fix_dirblock(d2, o // R.bs)
+                emit("dotdot_wrong", pt)
+                break
+    # 11 two files claim the same block (extent files: first extent of /frag := first block of /big400k;
+    #    block-mapped files: i_block[0])
+    pt = fresh()
+    off, raw = pt.raw_inode(frag["ino"])
+    target = big["own"]["data"][0][0]
+    if frag["map"] == "extent" and not frag["own"]["index"]:
+        struct.pack_into("<I", raw, 40 + 12 + 8, target & 0xFFFFFFFF)
+        struct.pack_into("<H", raw, 40 + 12 + 6, target >> 32)
+        pt.put_inode(frag["ino"], raw)
+        emit("alias_block", pt)
+    elif frag["map"] == "indirect":
+        struct.pack_into("<I", raw, 40, target)
+        pt.put_inode(frag["ino"], raw)
+        emit("alias_block", pt)
+    elif frag["map"] == "extent":
+        eb = frag["own"]["index"][0][0]
+        o = eb * R.bs
+        mx = struct.unpack_from("<H", pt.b, o + 4)[0]
+        struct.pack_into("<I", pt.b, o + 12 + 8, target & 0xFFFFFFFF)
+        struct.pack_into("<H", pt.b, o + 12 + 6, target >> 32)
+        if R.meta_csum:
+            c = ext4read.crc32c(pt.iseed(frag["ino"]), bytes(pt.b[o:o + 12 + 12 * mx]))
+            struct.pack_into("<I", pt.b, o + 12 + 12 * mx, c)
+        emit("alias_block", pt)
+    # 12 a data block inside the inode table
+    pt = fresh()
+    off, raw = pt.raw_inode(big["ino"])
+    itb = R.gd[0]["it"] + 1
+    if big["map"] == "indirect":
+        struct.pack_into("<I", raw, 40, itb)
+        pt.put_inode(big["ino"], raw)
+        emit("block_in_inode_table", pt)
+    elif big["map"] == "extent" and not big["own"]["index"]:
+        struct.pack_into("<I", raw, 40 + 12 + 8, itb)
+        struct.pack_into("<H", raw, 40 + 12 + 6, 0)
+        pt.put_inode(big["ino"], raw)
+        emit("block_in_inode_table", pt)
+    # 13 shared xattr block: refcount 2 -> 3
+    for x in base.P["xblocks"]:
+        if x["refcount"] == 2:
+            pt = fresh()
+            o = x["blk"] * R.bs
+            struct.pack_into("<I", pt.b, o + 4, 3)
+            if R.meta_csum:
+                struct.pack_into("<I", pt.b, o + 16, 0)
+                c = ext4read.crc32c(R.seed, struct.pack("<Q", x["blk"]))
+                c = ext4read.crc32c(c, bytes(pt.b[o:o + R.bs]))
+                struct.pack_into("<I", pt.b, o + 16, c)
+            emit("xattr_refcount_3", pt)
+            break
+    # 14 htree: the hashes of two index entries of the root swap places
+    for d in base.P["dirs"]:
+        if d["kind"] == "htree":
+            pt = fresh()
+            o = R.loc["dirblk"]["%d:0" % d["dir"]]
+            limit, count = struct.unpack_from("<HH", pt.b, o + 32)
+            if count >= 4:
+                h1 = pt.b[o + 32 + 8:o + 32 + 12]
+                h2 = pt.b[o + 32 + 16:o + 32 + 20]
+                pt.b[o + 32 + 8:o + 32 + 12] = h2
+                pt.b[o + 32 + 16:o + 32 + 20] = h1
+                if R.meta_csum:
+                    t = o + 32 + limit * 8
+                    c = ext4read.crc32c(pt.iseed(d["dir"]), bytes(pt.b[o:o + 32 + count * 8]))
+                    c = ext4read.crc32c(c, bytes(pt.b[t:t + 4]) + bytes(4))
+                    struct.pack_into("<I", pt.b, t + 4, c)
+                emit("htree_hash_swap", pt)
+            break
     return out
 
 
@@ -386,6 +663,29 @@ def cmd_fresh():
     table(out, meta)
     for n, i, notes in made:
         print("  %-18s %s" % (n, "; ".join(notes)))
+    # mutations
+    md = os.path.join(work, "mut")
+    if os.path.exists(md):
+        shutil.rmtree(md)
+    os.makedirs(md)
+    mjobs = []
+    for n, i in jobs:
+        try:
+            mjobs += mutations(i, md, n)
+        except Exception as ex:
+            print("  mutation of %s failed: %r" % (n, ex))
+    print("mutated images:")
+    mout, mmeta = run_set(mjobs, bdir, env, "mutated.json")
+    table(mout, mmeta)
+    byk = {}
+    for r in mout:
+        k = r["name"].split("/")[1]
+        byk.setdefault(k, []).append(r)
+    for k, rs in sorted(byk.items()):
+        print("  %-24s n=%2d  fsck!=0: %2d  inconsistent: %2d  failed=%s" % (
+            k, len(rs), sum(1 for r in rs if r["fsck_rc"]), sum(1 for r in rs if not r["consistent"]),
+            sorted({f for r in rs for f in r["failed"]})))
+    shutil.rmtree(md)
     print("tree vs debugfs rdump:")
     for n, i in jobs:
         nf, diffs = tree_vs_rdump(bdir, env, i, work)
